@@ -73,7 +73,10 @@ def resubmit_jobs(output, failed, missing, successful, submission_groups_file, v
         deserialize_jobs=True,
     )
     if not cluster.is_complete():
-        cluster.demote_from_submitter()
+        if promoted:
+            # Only give up the role if this process got it; otherwise another process is the
+            # submitter and its role must not be cleared.
+            cluster.demote_from_submitter()
         print("resubmit-jobs requires that the existing submission be complete", file=sys.stderr)
         sys.exit(1)
     assert promoted
